@@ -56,14 +56,14 @@ TIERS = {
         # one schedule per transition (VIEW hides history/monitor); Prop_* checked on every visited state
         gen=[dict(emit="all", view=True, maxops=3, rcs=(0, 1), rds=(1, 2), tos=(0, 1)),
              dict(emit="all", view=True, maxops=2, rcs=(2,), rds=(1, 2), tos=(0,), kinds=("retry",))],
-        max_plain=6000, max_racing=300, racing_reps=6, stress_ms=2500, devs=False, timeout=240),
+        max_plain=4000, max_racing=200, racing_reps=6, judge_jvms=4, stress_ms=2500, devs=False, timeout=240),
     "thorough": dict(
         free=dict(maxops=3, rcs=(0, 1, 2), rds=(1, 2), tos=(0, 1, 2)),
         # the full forced state space (every complete behaviour printed at the horizon) + transition cover
         # for RetryCount up to 3
         gen=[dict(emit="end", view=False, maxops=3, rcs=(0, 1, 2), rds=(1, 2, 3), tos=(0, 1, 3)),
              dict(emit="all", view=True, maxops=3, rcs=(3,), rds=(1, 2, 3), tos=(0,), kinds=("retry",))],
-        max_plain=10 ** 9, max_racing=40000, racing_reps=10, stress_ms=20000, devs=True, timeout=1000),
+        max_plain=10 ** 9, max_racing=40000, racing_reps=10, judge_jvms=12, stress_ms=20000, devs=True, timeout=1000),
 }
 
 DEV_CFGS = {  # deviation -> (cfg constants, property that must be violated on the model)
@@ -109,6 +109,10 @@ def model_stage(prop, tier):
     for n, g in enumerate(T["gen"]):
         jobs.append(("gen%d" % n, cfg_text(True, **g), "MC_tx_gen%d.cfg" % n))
     if T["devs"]:
+        # the explicit quiescence predicate of the spec agrees with ENABLED (both modes)
+        for forced in (False, True):
+            jobs.append(("qdef:%s" % forced, cfg_text(forced, "none", maxops=2, rcs=(0, 1), rds=(1,), tos=(0, 1),
+                                                      invariants=("QuiescentDef",)), "MC_tx_qdef_%s.cfg" % forced))
         for d, (kw, _) in DEV_CFGS.items():
             jobs.append(("dev:" + d, cfg_text(True, "none", invariants=(DEV_CFGS[d][1],), **kw),
                          "MC_tx_dev_%s.cfg" % d))
@@ -240,7 +244,7 @@ def judge(chunks_lines):
     """One TLC run (Trace_Transactions) per chunk. Returns (bad records, stats, tlc states, tlc transitions)."""
     def one(lines):
         if not lines:
-            return [], dict(traces=0, t18=0, t19=0, chk18=0, chk19=0, bad=0), 0, 0
+            return [], dict(traces=0, t18=0, t19=0, chk18=0, chk19=0, bad18=0, bad19=0), 0, 0
         text = "".join(json.dumps(l) + "\n" for l in lines)
         res = vlib.tlc("Trace_Transactions", "Trace_Transactions.cfg", files={"tx_trace.ndjson": text},
                        workers=1, timeout=900, javaopts="-Xmx3g")
@@ -255,8 +259,41 @@ def judge(chunks_lines):
 
     res = vlib.pmap(one, chunks_lines, n=len(chunks_lines))
     bad = [b for r in res for b in r[0]]
-    st = {k: sum(r[1][k] for r in res) for k in ("traces", "t18", "t19", "chk18", "chk19", "bad")}
+    st = {k: sum(r[1][k] for r in res) for k in ("traces", "t18", "t19", "chk18", "chk19", "bad18", "bad19")}
     return bad, st, sum(r[2] for r in res), sum(r[3] for r in res)
+
+
+def plant_corrupted(groups):
+    """Append corrupted copies of accepted-looking traces to the first group; returns their ids."""
+    by_tr = {}
+    for g in groups:
+        for l in g:
+            by_tr.setdefault(l["tr"], []).append(l)
+    planted = set()
+    # C18: finally count bumped on the lines after Done closed
+    for tr, ls in by_tr.items():
+        if ls[-1]["done"] and ls[-1]["fin"] == 1 and ls[-1]["ev"] == "end" and len(ls) > 3:
+            cp = [dict(l, tr="selftest-c18") for l in ls]
+            k = next(i for i, l in enumerate(cp) if l["done"])
+            for l in cp[min(k + 1, len(cp) - 2):]:
+                l["fin"] = 2
+            groups[0].extend(cp)
+            planted.add("selftest-c18")
+            break
+    # C19: the first retry callback reported one tick late
+    for tr, ls in by_tr.items():
+        if ls[0]["kind"] == "retry" and ls[-1]["ev"] == "end" and not any(l["ev"] in ("C", "tS", "tF", "tP") for l in ls):
+            k = next((i for i, l in enumerate(ls) if l["cb"] == 1 and l["ev"] == "tick"), None)
+            if k is None or k + 2 >= len(ls) or ls[k + 2]["ev"] != "tick" or ls[k + 1]["ev"] != "rel":
+                continue
+            cp = [dict(l, tr="selftest-c19") for l in ls]
+            cp[k]["cb"], cp[k]["parked"] = 0, False           # ... not at its tick
+            del cp[k + 1]                                       # (its release line)
+            cp[k + 1]["cb"] = max(cp[k + 1]["cb"], 1)           # ... but one tick later
+            groups[0].extend(cp)
+            planted.add("selftest-c19")
+            break
+    return planted
 
 
 # ---------------------------------------------------------------- free-running instruments (C18)
@@ -366,7 +403,20 @@ def run(prop, tier, replay=None):
     nchunks = max(1, min(vlib.NCPU, len(scheds) // 200 + 1))
     chunks_lines, crashes = execute(binary, scheds, nchunks)
     t1 = lap("replay", t1)
-    bad, tstats, tstates, ttrans = judge(chunks_lines)
+    # few, large TLC runs for the judging (JVM start dominates small ones)
+    nj = max(1, min(TIERS[tier]["judge_jvms"], len(chunks_lines)))
+    groups = [[l for c in chunks_lines[k::nj] for l in c] for k in range(nj)]
+    # binding self-test: a recorded trace with one corrupted field must be rejected by the trace spec
+    planted = plant_corrupted(groups)
+    bad, tstats, tstates, ttrans = judge(groups)
+    caught = {b["tr"] for b in bad if b["tr"].startswith("selftest-")}
+    if planted - caught:
+        raise vlib.Inconclusive("binding self-test: corrupted trace(s) %s were accepted by Trace_Transactions"
+                                % sorted(planted - caught))
+    bad = [b for b in bad if not b["tr"].startswith("selftest-")]
+    for g in groups:
+        g[:] = [l for l in g if not l["tr"].startswith("selftest-")]
+    tstats["traces"] -= len(planted)
     t1 = lap("tlc_traces", t1)
     lines_by_tr = {}
     for ls in chunks_lines:
